@@ -515,15 +515,22 @@ fn set_speed_case(ctx: &mut Ctx, r: &mut Rng, steps: usize) {
     let total = tpc.offset_end().value;
     if total < len + 200.0 { ctx.count("train.ss.route_too_short"); return; }
     let mass_static = bu.tp.towed_mass_static.value + 4.0 * 195000.0;
+    // the run may start part-way along the route (front beyond the train length), the train's own clock need not be 0,
+    // and the trace's first stamp need not equal it (a trace cut out of a longer recording)
+    let extra = if r.chance(0.3) { ctx.count("train.ss.starts_part_way"); (r.unit() * (total - len - 200.0).max(0.0) * 0.5 * 4.0).floor() / 4.0 } else { 0.0 };
+    let off0 = len + extra;
+    let t_clock = if r.chance(0.8) { 0.0 } else { 300.0 };
+    let t_first = *r.pick(&[t_clock, t_clock, t_clock, t_clock, 120.0, 37.5]);
+    if t_first != t_clock { ctx.count("train.ss.trace_start_differs_from_train_clock"); }
     let st0 = TrainState::new(m(len), uc::KG * mass_static, uc::KG * (mass_static * 0.04), uc::KG * (mass_static * 0.6),
-        Some(InitTrainState::new(Some(uc::S * 0.0), Some(m(len)), Some(mps(0.0)))));
+        Some(InitTrainState::new(Some(uc::S * t_clock), Some(m(off0)), Some(mps(0.0)))));
     let Some(res) = make_res(r, &tpc, &st0) else { ctx.count("train.ss.res_err"); return; };
     let con = gen_train_consist(r);
     // speed trace: irregular stamps, stop-and-go, saturating both clips now and then
     let vmax = bu.tp.speed_max.value;
     // rolling start now and then: the trace's first sample differs from the (default, standing) initial train state
     let v0: f64 = if r.chance(0.3) { ctx.count("train.ss.rolling_start"); (vmax * 0.5 * r.unit() * 8.0).round() / 8.0 } else { 0.0 };
-    let mut time = vec![0.0];
+    let mut time = vec![t_first];
     let mut speed = vec![v0];
     let mut v: f64 = v0;
     let mut dist = 0.0;
@@ -532,7 +539,7 @@ fn set_speed_case(ctx: &mut Ctx, r: &mut Rng, steps: usize) {
         let a = match r.below(8) { 0 => -0.6, 1 => -0.2, 2 | 3 => 0.0, 4 => 0.05, 5 => 0.15, 6 => 0.4, _ => 1.5 };
         let nv = (v + a * dt).max(0.0).min(vmax);
         let d = 0.5 * (v + nv) * dt;
-        if len + dist + d > total - 50.0 { break; }
+        if off0 + dist + d > total - 50.0 { break; }
         dist += d;
         v = nv;
         time.push(time.last().unwrap() + dt);
@@ -596,7 +603,12 @@ fn set_speed_case(ctx: &mut Ctx, r: &mut Rng, steps: usize) {
                 chk(ctx, "C14", "energy_accumulates_trace_dt", close(s.energy_whl_out.value - p.energy_whl_out.value, s.pwr_whl_out.value * dt, mc * 10.0), "energy_whl_out does not advance by pwr*dt_trace".into());
                 e_whl += s.pwr_whl_out.value * dt;
                 // C12
-                chk(ctx, "C12", "time_advances_by_dt", close(s.time.value - p.time.value, dt, 1.0), format!("time {} -> {} with dt {}", p.time.value, s.time.value, dt));
+                // a set-speed run is driven by its trace: the step size is the distance between two trace stamps and the time
+                // before the step is the previous stamp. The initial state is the caller's (its clock may differ from the first
+                // stamp — the library copies neither into the other; observed, not judged): from the second step on the state's
+                // own previous time must be that stamp too
+                let t_before = if i == 1 && p.time.value != tp_ { ctx.count("train.ss.observe.first_row_clock_is_not_first_stamp"); tp_ } else { p.time.value };
+                chk(ctx, "C12", "time_advances_by_dt", close(s.time.value - t_before, dt, 1.0), format!("time {} -> {} with dt {}", t_before, s.time.value, dt));
                 chk(ctx, "C12", "position_advances_by_mean_speed", close(s.offset.value - p.offset.value, dt * 0.5 * (vp + vc), 1000.0), format!("offset {} -> {}", p.offset.value, s.offset.value));
                 chk(ctx, "C12", "rear_is_front_minus_length", s.offset_back.value == s.offset.value - s.length.value, format!("offset_back {} != offset {} - length {}", s.offset_back.value, s.offset.value, s.length.value));
                 chk(ctx, "C12", "distance_sums_abs_moves", close(s.total_dist.value - p.total_dist.value, (s.offset.value - p.offset.value).abs(), 1000.0), "total_dist does not advance by |position change|".into());
@@ -711,8 +723,12 @@ fn speed_limit_case(ctx: &mut Ctx, r: &mut Rng, max_steps: usize) {
     let Some(bu) = path_case(ctx, r, false, true) else { return; };
     let len = bu.tp.length.value;
     let mass_static = bu.tp.towed_mass_static.value + 4.0 * 195000.0;
+    // the run may start part-way along the route (front beyond the train length) and at another clock time than 0
+    let route_len: f64 = bu.route.iter().map(|l| bu.net[l.idx()].length.value).sum();
+    let extra = if r.chance(0.3) { ctx.count("train.sl.starts_part_way"); (r.unit() * (route_len - len - 1500.0).max(0.0) * 0.4 * 4.0).floor() / 4.0 } else { 0.0 };
+    let off0 = len + extra;
     let st0 = TrainState::new(m(len), uc::KG * mass_static, uc::KG * (mass_static * 0.04), uc::KG * (mass_static * 0.6),
-        Some(InitTrainState::new(Some(uc::S * 0.0), Some(m(len)), Some(mps(0.0)))));
+        Some(InitTrainState::new(Some(uc::S * *r.pick(&[0.0, 0.0, 0.0, 600.0])), Some(m(off0)), Some(mps(0.0)))));
     let mut sim = SpeedLimitTrainSim::valid();
     sim.path_tpc = PathTpc::new(bu.tp);
     sim.loco_con = gen_train_consist(r);
@@ -737,7 +753,7 @@ fn speed_limit_case(ctx: &mut Ctx, r: &mut Rng, max_steps: usize) {
         for li in &bu.route {
             cum += bu.net[li.idx()].length.value;
             k0 += 1;
-            if cum >= len + 1.0 { break; }
+            if cum >= off0 + 1.0 { break; }
         }
     }
     let okx = guard(|| -> anyhow::Result<()> {
